@@ -731,7 +731,7 @@ class SDMM(Alg):
             )
 
             # run through constraints
-            z_old = self.z
+            z_old = list(self.z)
             for ii in range(len(self.L)):
                 self.z[ii] = self.prox_rhog(
                     self.L[ii] @ (self.x + self.u[ii]), self.c[ii]
